@@ -15,7 +15,7 @@ RULE = (
     "states = (declaration route, domain, model kind, method, strict) tuples: routes {scalar Variable, VectorVariable, "
     "from_numpy, MatrixVariable, symmetric matrix, slice, stepped and reversed slices, row, column, diagonal, "
     "transpose, sub-matrix, diag_matrix, mixed continuous+integer model, integer variable only in a constraint, "
-    "containers with >=4 non-continuous elements} x {integer, binary with user bounds contradicting [0,1]} x {linear "
+    "containers with >=4 non-continuous elements} x {integer with integral / non-integral / no bounds, binary with user bounds contradicting [0,1]} x {linear "
     "model, nonlinear model} x every applicable method {auto, linprog, highs, highs-ds, highs-ipm | auto, SLSQP, "
     "trust-constr, L-BFGS-B, TNC, BFGS, CG, Newton-CG, Nelder-Mead, Powell, COBYLA} x {strict, non-strict}: the full "
     "product; plus histories of 2 (3 thorough) solves on ONE problem object (warm caches) over method pairs and every "
@@ -51,7 +51,8 @@ ROUTES = [
     ("diag_matrix", ("diagm", ("vvar", "dq", 2)), "dq"),
     ("from_numpy", ("from_numpy", "fn", 4), "fn"),
 ]
-DOMAINS = [("integer", {"lb": -2, "ub": 6}), ("binary", {"lb": -5, "ub": 7}), ("binary", {}), ("integer", {})]
+DOMAINS = [("integer", {"lb": -2, "ub": 6}), ("binary", {"lb": -5, "ub": 7}), ("binary", {}), ("integer", {}),
+           ("integer", {"lb": -1.5, "ub": 5.25})]      # non-integral bounds, active at the optimum of the linear model
 
 
 def flat_vars(obj):
